@@ -126,6 +126,43 @@ func (w *c17World) checkCur(when string) bool {
 			return false
 		}
 	}
+	// tables that exist only in other databases are not visible from this one: the SELECT is refused and the
+	// session stays usable (the store is left unlocked)
+	absent := map[string]bool{}
+	for _, other := range w.dbs {
+		for i := db.extras + 1; i <= other.extras; i++ {
+			absent[fmt.Sprintf("u%d", i)] = true
+		}
+		if other.hasTable && !db.hasTable {
+			absent["t"] = true
+		}
+	}
+	for _, name := range lib.SortedKeys(absent) {
+		sel, _ := parseSelect("SELECT * FROM " + name)
+		var rows []*storage.Row
+		storage.VerifSetFuel(worldFuel)
+		err := guard(func() error {
+			var e error
+			rows, _, e = EvaluateSelect(sel, w.sess.RelationService)
+			return e
+		})
+		storage.VerifSetFuel(-1)
+		if pe, ok := err.(*panicErr); ok {
+			w.fail("panic", "%s: SELECT * FROM %s in database %s: %v\n%s", when, name, w.cur, pe.val, trimStack(pe.stack))
+			return false
+		}
+		if err == nil {
+			w.fail("contents", "%s: database %s answers SELECT * FROM %s with %d rows, but that table was only ever created in another database", when, w.cur, name, len(rows))
+			return false
+		}
+		if !storage.VerifLockFree(w.sess.RelationService) {
+			w.fail("store-left-locked", "%s: after the refused SELECT * FROM %s in database %s the store's lock is still held: the next flush, CREATE TABLE, USE or shutdown blocks forever", when, name, w.cur)
+			// closing this store would block as well: drop it the way a dying process does
+			storage.VerifAbandon(w.sess.RelationService)
+			w.sess.RelationService = nil
+			return false
+		}
+	}
 	if !db.hasTable {
 		return true
 	}
@@ -410,7 +447,7 @@ func runC17(env *lib.Env, rep *lib.Report) {
 	rep.Bounds["depth"] = fmt.Sprintf("quick: 4 from the one-row seed and from the empty directory, 3 from the flushed 12-row seed; thorough: 6 / 5 / 4 (this run: tier depth %d)", depth)
 	rep.Bounds["seeds"] = seeds
 	rep.Bounds["journeys"] = "from the flushed 12-row seed and from a flushed seed with seven tables (t holding 8 rows): every sequence of 5 (thorough 6) steps over {TICK, UPDATE all rows, UPDATE last row, INSERT, USE b + USE a, USE a, RESTART + USE a}"
-	rep.Bounds["events"] = "CREATE DATABASE a|B, USE a|b|A|B|nosuch (names are case-insensitive), CREATE TABLE t, CREATE TABLE u1/u2/.. (the next unused name), INSERT, UPDATE (all rows), TICK of every live store (including abandoned ones), RESTART; SHOW DATABASES and read-back are checked after every event"
+	rep.Bounds["events"] = "CREATE DATABASE a|B, USE a|b|A|B|nosuch (names are case-insensitive), CREATE TABLE t, CREATE TABLE u1/u2/.. (the next unused name), INSERT, UPDATE (all rows), TICK of every live store (including abandoned ones), RESTART; SHOW DATABASES and read-back are checked after every event; the read-back also probes every table name that exists only in another database (must be refused, the store left unlocked)"
 	known := env.OpenKnown()
 	explore(env, rep, 0, func(c *lib.Ctx) {
 		if worldHome == "" {
